@@ -1854,4 +1854,9 @@ theorem tw_all (p : Byte → Bool) : ∀ (l : List Byte), (∀ x, x ∈ l → p 
     simp [List.takeWhile_cons, hb]
     exact ih (fun x hx => h x (List.mem_cons_of_mem _ hx))
 
+theorem destructor_raw {N : Nat} {v : SVec} {es : List Elem} (h : Abs N v es) :
+    ∃ v' tr, destructor v = .ok (v', tr) ∧ v'.slots = rawStore N ∧ v'.size = 0 := by
+  obtain ⟨v', tr, h1, h2, _⟩ := destructor_spec h
+  exact ⟨v', tr, h1, (abs_nil_rawStore h2).1, (abs_nil_rawStore h2).2⟩
+
 end Igris.C14
